@@ -502,6 +502,21 @@ def real_env(mode, ae=False):
 _LOOP = None
 
 
+def guarded(ctx, fn, *a, seconds=10.0, **k):
+    """run one case under lib.cpu_guard; an overrun is a SKIPPED case (counted), never a verdict.  Returns (done, value)."""
+    global _LOOP
+    try:
+        with lib.cpu_guard(seconds):
+            return True, fn(*a, **k)
+    except lib.Hang:
+        _LOOP = None                     # the event loop may have been interrupted in the middle of a step
+        ctx.case()
+        ctx.count("skipped_cpu_guard")
+        import sys
+        print("cpu_guard: skipped", getattr(fn, "__name__", "case"), repr(a[:2])[:300], file=sys.stderr)
+        return False, None
+
+
 def run_async(coro):
     global _LOOP
     if _LOOP is None:
@@ -635,6 +650,137 @@ def make_data(rng, log):
     }
 
 
+# ------------------------------------------------------------------ size bound of a generated expression
+# (a power tower or a repeated repetition computes "forever" inside ONE C call of the engine, which no guard can
+#  interrupt: such trees are never generated.  Data independent: names stand for the largest value of their pool.)
+SIZE_LIMIT = 4e6        # bits of an int / items of a sequence
+
+
+class Huge(Exception):
+    pass
+
+
+def size_bound(e, pert=False):
+    """(kind, m): kind 'i' (number: m = bits) / 's' (sequence or string: m = items) / '?' ; raises Huge beyond SIZE_LIMIT.
+    `pert`: results of operators may have been replaced by value + 1000 (C20's perturbing hooks)"""
+    def chk(k, m):
+        if m > SIZE_LIMIT:
+            raise Huge()
+        return (k, m)
+
+    def num(m):
+        return chk("i", (max(m, 11) + 1) if pert else m)
+
+    def go(e):
+        t = e[0]
+        if t == "C":
+            v = e[1]
+            if isinstance(v, bool) or v is None:
+                return ("i", 1)
+            if isinstance(v, int):
+                return chk("i", max(v.bit_length(), 1))
+            if isinstance(v, float):
+                return ("i", 64)
+            return chk("s", max(len(v), 1))
+        if t == "N":
+            n = e[1]
+            if n in ("i0", "i1", "b0", "n0", "u0", "fi", "f0", "b1", "mi0", "mf0", "ie0"):
+                return ("i", 4)
+            if n == "hs0":
+                return ("i", 8)
+            if n in ("s0", "s1", "m0", "mk0", "sk0", "us0", "us1"):
+                return ("s", 8)
+            return ("?", 31)
+        if t == "B":
+            (ka, ma), (kb, mb) = go(e[2]), go(e[3])
+            op = e[1]
+            if op == "pow":
+                if mb > 24:
+                    raise Huge()
+                return num(max(ma, 1) * 2.0 ** mb)
+            if op == "mul":
+                if ka == "i" and kb == "i":
+                    return num(ma + mb)
+                worst = 0
+                for (k1, m1), (k2, m2) in (((ka, ma), (kb, mb)), ((kb, mb), (ka, ma))):
+                    if k2 != "s":                      # k2 may be the repetition count of sequence 1
+                        if m2 > 40:
+                            raise Huge()
+                        worst = max(worst, m1 * 2.0 ** m2)
+                return chk("?" if "?" in (ka, kb) else "s", max(worst, ma + mb))
+            if op in ("add", "mod"):
+                if ka == "i" and kb == "i":
+                    return num(max(ma, mb) + 1)
+                return chk("?", ma + mb + (12 if pert else 0))
+            return num(max(ma, mb) + 1)
+        if t == "U":
+            return num(go(e[2])[1]) if go(e[2])[0] == "i" else go(e[2])
+        if t == "!":
+            go(e[1])
+            return ("i", 1)
+        if t in ("&", "|"):
+            (ka, ma), (kb, mb) = go(e[1]), go(e[2])
+            return (ka if ka == kb else "?", max(ma, mb))
+        if t == "~":
+            return chk("s", sum(go(x)[1] for x in e[1]) + 1)
+        if t == "cmp":
+            go(e[1])
+            for _, x in e[2]:
+                go(x)
+            return ("i", 1)
+        if t == "?":
+            go(e[1])
+            a = go(e[2])
+            b = go(e[3]) if e[3] is not None else ("?", 1)
+            return (a[0] if a[0] == b[0] else "?", max(a[1], b[1]))
+        if t in (".", ".i"):
+            return ("?", max(go(e[1])[1], 31))
+        if t == "[]":
+            go(e[2])
+            return ("?", max(go(e[1])[1], 31))
+        if t == "sl":
+            for x in e[2:5]:
+                if x is not None:
+                    go(x)
+            return ("s", go(e[1])[1])
+        if t in ("L", "T"):
+            return chk("s", sum(go(x)[1] for x in e[1]) + len(e[1]) + 1)
+        if t == "D":
+            return chk("s", sum(go(k)[1] + go(v)[1] for k, v in e[1]) + len(e[1]) + 1)
+        if t in ("call", "callx"):
+            go(e[1])
+            for x in e[2]:
+                go(x)
+            for _, x in e[3]:
+                go(x)
+            if t == "callx":
+                for x in e[4:6]:
+                    if x is not None:
+                        go(x)
+            return ("?", 64)
+        if t in ("F", "is"):
+            m = go(e[1])[1]
+            for x in e[3]:
+                m = max(m, go(x)[1])
+            if t == "is":
+                return ("i", 1)
+            if e[2] in ("length", "count", "int", "abs", "sum", "first", "last"):
+                return ("i" if e[2] not in ("first", "last") else "?", max(m, 31))
+            return chk("?", m + 64)
+        return ("?", 64)
+    return go(e)
+
+
+def small_enough(e, pert=False):
+    try:
+        size_bound(e, pert)
+        return True
+    except Huge:
+        return False
+    except RecursionError:
+        return False
+
+
 class EGen:
     """type-directed random expression trees; `const_rich` prefers literals (C08),
     `arith` prefers operators (C20)"""
@@ -644,6 +790,8 @@ class EGen:
         self.const_rich = const_rich
         self.arith = arith
         self.filters = filters
+        self.pert = False           # C20: operator results may be perturbed by +1000
+        self._nest = False
 
     def atom(self, ty):
         r = self.r
@@ -679,6 +827,20 @@ class EGen:
         return self.atom(r.choice(["int", "str", "bool", "list", "dict", "obj", "none"]))
 
     def gen(self, d, ty="any"):
+        """a tree whose values stay small (size_bound): towers of powers / repetitions are regenerated"""
+        if self._nest:
+            return self._gen(d, ty)
+        self._nest = True
+        try:
+            for _ in range(10):
+                e = self._gen(d, ty)
+                if small_enough(e, self.pert):
+                    return e
+            return self.atom(ty)
+        finally:
+            self._nest = False
+
+    def _gen(self, d, ty="any"):
         r = self.r
         if ty == "any":
             ty = r.choice(["int", "int", "str", "str", "bool", "list", "dict", "obj", "none"])
